@@ -378,7 +378,8 @@ def run(ctx):
         "theorem": ["every byte the writer can emit has odd parity (complete tables + induction over any text)",
                     "PAC rows addressed are exactly 16-n..15, within 1..15, for 1 <= n <= 15 laid-out rows",
                     "laid-out rows have at most 32 columns (all texts)",
-                    "wrapping removes only spaces and splits only words longer than 32 (all texts over one-space whitespace)",
+                    "wrapping removes only whitespace (all texts); words of the rows refine the words of the text, "
+                    "a word split only when longer than 32 (all texts over the basic set)",
                     "code string = four-hex-digit words each followed by a space; half words padded with 80",
                     "timecode frames non-negative and non-decreasing under the spacing hypothesis",
                     "load displayed within (start - 3 frames, start - 2 frames] (model of PASS 2/3)",
